@@ -370,6 +370,10 @@ func main() {
 	if nw < 2 {
 		nw = 2
 	}
+	if !r.Thorough {
+		maxStackForRun = quickMaxStack
+	}
+	r.Extra("child_max_stack_bytes", maxStackForRun)
 	h.pool = &pool{genroot: std.Scratch, nWorkers: nw}
 	h.startCC(nw)
 
@@ -433,7 +437,7 @@ func main() {
 	h.runBatch(nestCases(depths))
 
 	// 2. random streams.
-	nRandom, nProgram, nCorpus, maxPkg := 1500, 1500, 1200, 200_000
+	nRandom, nProgram, nCorpus, maxPkg := 1000, 1000, 800, 200_000
 	if r.Thorough {
 		nRandom, nProgram, nCorpus, maxPkg = 20000, 24000, 8000, 1_000_000
 	}
